@@ -95,11 +95,28 @@ def r131_r132(repo, ctx, index):
         n += 1
     ctx.floor('R13.1', n, 4)
     f = repo.func(BASE, f'{PBASE}._calcNucleationRate')
-    sel = [s for s in ast.walk(f) if isinstance(s, ast.If) and U.chain(s.test) == ('self', 'temperatureParameters', '_isIsothermal')]
+    def flag_test(t_):
+        neg = False
+        while isinstance(t_, ast.UnaryOp) and isinstance(t_.op, ast.Not):
+            t_, neg = t_.operand, not neg
+        if isinstance(t_, ast.Compare) and len(t_.ops) == 1 and isinstance(t_.comparators[0], ast.Constant) and isinstance(t_.comparators[0].value, bool):
+            if isinstance(t_.ops[0], (ast.Is, ast.Eq)):
+                neg ^= (t_.comparators[0].value is False)
+            elif isinstance(t_.ops[0], (ast.IsNot, ast.NotEq)):
+                neg ^= (t_.comparators[0].value is True)
+            else:
+                return None
+            t_ = t_.left
+        return neg if U.chain(t_) == ('self', 'temperatureParameters', '_isIsothermal') else None
+    sel = [s for s in ast.walk(f) if isinstance(s, (ast.If, ast.IfExp)) and flag_test(s.test) is not None]
     ok = False
     for s in sel:
-        t = [U.call_attr(c) for st in s.body for c in U.calls(st)]
-        e = [U.call_attr(c) for st in s.orelse for c in U.calls(st)]
+        body = s.body if isinstance(s, ast.If) else [s.body]
+        orelse = s.orelse if isinstance(s, ast.If) else [s.orelse]
+        if flag_test(s.test):
+            body, orelse = orelse, body
+        t = [U.call_attr(c) for st in body for c in U.calls(st)]
+        e = [U.call_attr(c) for st in orelse for c in U.calls(st)]
         if 'incubationTime' in t and 'incubationTimeNonIsothermal' in e:
             ok = True
     ctx.check(ok, 'R13.2', BASE, f'{PBASE}._calcNucleationRate', sel[0] if sel else f, 'isothermal flag selects incubationTime, otherwise incubationTimeNonIsothermal',
